@@ -1106,3 +1106,160 @@ Proof.
   { destruct o; simpl; intro P; [apply zero_one_idem|reflexivity|reflexivity]. }
   exists ps, h'. split; [exact Hps|]. split; [destruct o; exact Hf|]. auto.
 Qed.
+
+(* ================================================================== acyclic <-> no module reaches itself *)
+Definition reach_plus (h : heap) (m m' : nat) : Prop := exists c, child h m c /\ reach h c m'.
+Definition no_cycle (h : heap) : Prop := forall m, ~ reach_plus h m m.
+
+Lemma reach_rank h rank : (forall m c, child h m c -> rank c < rank m) -> forall m m', reach h m m' -> rank m' <= rank m.
+Proof.
+  intros Hr m m' H. induction H as [m Hv|m c m' Hc H IH]; [lia|]. specialize (Hr m c Hc). lia.
+Qed.
+
+Lemma acyclic_no_cycle h : acyclic h -> no_cycle h.
+Proof.
+  intros (rank & Hr & _) m (c & Hc & Hreach).
+  pose proof (reach_rank h rank Hr _ _ Hreach). specialize (Hr m c Hc). lia.
+Qed.
+
+Fixpoint height_f (fuel : nat) (h : heap) (m : nat) : option nat :=
+  match fuel with
+  | 0 => None
+  | S f => match nth_error (mods h) m with
+           | None => None
+           | Some M => option_map (fun ks => S (list_max ks)) (sequence (map (height_f f h) (map snd (m_subs M))))
+           end
+  end.
+
+Inductive chain (h : heap) : list nat -> Prop :=
+| chain_one m : m < length (mods h) -> chain h [m]
+| chain_cons m c t : child h m c -> chain h (c :: t) -> chain h (m :: c :: t).
+
+Lemma sequence_none {A B} (g : A -> option B) l : sequence (map g l) = None -> exists x, In x l /\ g x = None.
+Proof.
+  induction l as [|a l IH]; simpl; [discriminate|].
+  destruct (g a) eqn:E; [|intros _; exists a; auto].
+  destruct (sequence (map g l)); simpl; [discriminate|]. intros _.
+  destruct (IH eq_refl) as (x & Hx & Hg). exists x. auto.
+Qed.
+
+Lemma height_none_chain h : wf h -> forall f m, m < length (mods h) -> height_f f h m = None ->
+  exists p, chain h (m :: p) /\ length p = f.
+Proof.
+  intro Hwf. induction f as [|f IH]; intros m Hv H.
+  - exists []. split; [constructor; exact Hv|reflexivity].
+  - simpl in H. destruct (nth_error (mods h) m) as [M|] eqn:EM.
+    2:{ apply nth_error_None in EM. lia. }
+    destruct (sequence (map (height_f f h) (map snd (m_subs M)))) eqn:E; [discriminate|].
+    destruct (sequence_none _ _ E) as (c & Hc & Hn).
+    assert (Hch : child h m c) by (exists M; auto).
+    destruct (IH c (wf_child _ _ _ Hwf Hch) Hn) as (p & Hp & Hl).
+    exists (c :: p). split; [constructor; assumption|simpl; lia].
+Qed.
+
+Lemma chain_valid h l : wf h -> chain h l -> forall x, In x l -> x < length (mods h).
+Proof.
+  intros Hwf H. induction H as [m Hv|m c t Hc H IH]; intros x Hx.
+  - destruct Hx as [<-|[]]. exact Hv.
+  - destruct Hx as [<-|Hx]; [eapply child_valid; eauto|auto].
+Qed.
+
+Lemma chain_tail h a l : l <> [] -> chain h (a :: l) -> chain h l.
+Proof.
+  intros Hne H. inversion H; subst.
+  - exfalso. apply Hne. reflexivity.
+  - assumption.
+Qed.
+
+Lemma chain_suffix h l1 : forall l2, l2 <> [] -> chain h (l1 ++ l2) -> chain h l2.
+Proof.
+  induction l1 as [|a l1 IH]; intros l2 Hne H; [exact H|].
+  simpl in H. apply IH; [exact Hne|]. apply (chain_tail h a); [|exact H].
+  intro E. apply app_eq_nil in E. destruct E as [_ E]. contradiction.
+Qed.
+
+Lemma chain_head_valid h m t : chain h (m :: t) -> m < length (mods h).
+Proof. inversion 1; subst; [assumption|eapply child_valid; eauto]. Qed.
+
+Lemma chain_reach_plus h l2 : forall x y l3, chain h (x :: l2 ++ y :: l3) -> reach_plus h x y.
+Proof.
+  induction l2 as [|a l2 IH]; intros x y l3 H; simpl in H.
+  - inversion H as [|? ? ? Hc H']; subst. exists y. split; [exact Hc|].
+    apply reach_refl. eapply chain_head_valid; eauto.
+  - inversion H as [|? ? ? Hc H']; subst. exists a. split; [exact Hc|].
+    destruct (IH _ _ _ H') as (c & Hc' & Hr). eapply reach_step; eauto.
+Qed.
+
+Lemma not_NoDup_split (l : list nat) : ~ NoDup l -> exists x l1 l2 l3, l = l1 ++ x :: l2 ++ x :: l3.
+Proof.
+  induction l as [|a t IH]; intro H; [exfalso; apply H; constructor|].
+  destruct (in_dec Nat.eq_dec a t) as [Hin|Hnin].
+  - apply in_split in Hin. destruct Hin as (l2 & l3 & ->). exists a, [], l2, l3. reflexivity.
+  - destruct IH as (x & l1 & l2 & l3 & ->).
+    + intro Hnd. apply H. constructor; assumption.
+    + exists x, (a :: l1), l2, l3. reflexivity.
+Qed.
+
+Lemma height_total h : wf h -> no_cycle h -> forall m, m < length (mods h) ->
+  exists k, height_f (length (mods h)) h m = Some k.
+Proof.
+  intros Hwf Hnc m Hv. destruct (height_f (length (mods h)) h m) as [k|] eqn:E; [eauto|exfalso].
+  destruct (height_none_chain h Hwf _ m Hv E) as (p & Hp & Hl).
+  assert (Hnd : ~ NoDup (m :: p)).
+  { intro Hnd. assert (Hincl : incl (m :: p) (seq 0 (length (mods h)))).
+    { intros x Hx. apply in_seq. pose proof (chain_valid h _ Hwf Hp x Hx). lia. }
+    pose proof (NoDup_incl_length Hnd Hincl) as Hlen. rewrite seq_length in Hlen. simpl in Hlen. lia. }
+  destruct (not_NoDup_split _ Hnd) as (x & l1 & l2 & l3 & Heq).
+  rewrite Heq in Hp. apply chain_suffix in Hp; [|discriminate].
+  apply (Hnc x). eapply chain_reach_plus. exact Hp.
+Qed.
+
+Lemma height_mono h : forall f m k, height_f f h m = Some k -> height_f (S f) h m = Some k.
+Proof.
+  induction f as [|f IH]; intros m k H; [discriminate|].
+  change (height_f (S (S f)) h m) with
+    (match nth_error (mods h) m with
+     | None => None
+     | Some M => option_map (fun ks => S (list_max ks)) (sequence (map (height_f (S f) h) (map snd (m_subs M))))
+     end).
+  simpl in H. destruct (nth_error (mods h) m) as [M|]; [|discriminate].
+  destruct (sequence (map (height_f f h) (map snd (m_subs M)))) as [ks|] eqn:E; [|discriminate].
+  apply sequence_Forall2 in E.
+  assert (E' : Forall2 (fun c k => height_f (S f) h c = Some k) (map snd (m_subs M)) ks).
+  { eapply Forall2_impl_l; [|exact E]. intros c kc _ Hc. apply IH. exact Hc. }
+  apply sequence_Forall2 in E'. rewrite E'. exact H.
+Qed.
+
+Lemma height_le h : forall f m k, height_f f h m = Some k -> k <= f.
+Proof.
+  induction f as [|f IH]; intros m k H; [discriminate|].
+  simpl in H. destruct (nth_error (mods h) m) as [M|]; [|discriminate].
+  destruct (sequence (map (height_f f h) (map snd (m_subs M)))) as [ks|] eqn:E; [|discriminate].
+  simpl in H. injection H as <-. apply sequence_Forall2 in E.
+  apply le_n_S. apply list_max_le. rewrite Forall_forall. intros kc Hkc.
+  destruct (Forall2_In_r _ _ _ _ E Hkc) as (c & _ & Hc). eapply IH; eauto.
+Qed.
+
+Lemma height_child h f m k c : height_f (S f) h m = Some k -> child h m c ->
+  exists kc, height_f f h c = Some kc /\ kc < k.
+Proof.
+  intros H (M & HM & Hc). simpl in H. rewrite HM in H.
+  destruct (sequence (map (height_f f h) (map snd (m_subs M)))) as [ks|] eqn:E; [|discriminate].
+  simpl in H. injection H as <-. apply sequence_Forall2 in E.
+  destruct (Forall2_In_l _ _ _ _ E Hc) as (kc & Hkc & Hh). exists kc. split; [exact Hh|].
+  apply le_n_S. assert (F : Forall (fun k => k <= list_max ks) ks) by (apply list_max_le; lia).
+  rewrite Forall_forall in F. auto.
+Qed.
+
+(* the rank hypothesis is exactly "no module reaches itself" on the heaps built by events *)
+Theorem no_cycle_acyclic h : wf h -> no_cycle h -> acyclic h.
+Proof.
+  intros Hwf Hnc.
+  exists (fun m => match height_f (length (mods h)) h m with Some k => k | None => 0 end). split.
+  - intros m c Hch. pose proof (child_valid _ _ _ Hch) as Hv.
+    destruct (height_total h Hwf Hnc m Hv) as [k Hk]. rewrite Hk.
+    destruct (length (mods h)) as [|N] eqn:EN; [discriminate|].
+    destruct (height_child h N m k c Hk Hch) as (kc & Hkc & Hlt).
+    rewrite (height_mono h N c kc Hkc). exact Hlt.
+  - intro m. destruct (height_f (length (mods h)) h m) as [k|] eqn:E; [|lia]. eapply height_le; eauto.
+Qed.
